@@ -34,6 +34,7 @@ Bodies ==
         {Lit(NumD(N1), <<R("or", [t |-> "list", items |-> <<TRef(x), IdV("integer")>>])>>) : x \in Targets}
    \cup {Obj(<<P(Ka, One)>>, <<R("additionalProperties", TRef(x))>>) : x \in Targets}
    \cup {Obj(<<>>, <<R("additionalProperties", TRef(x))>>) : x \in Targets}
+   \cup {Obj(<<P(Ka, Ref(<<x>>, <<R("optional", BV(FALSE))>>))>>, <<>>) : x \in Targets}         \* the rule is there, its value says "required"
    \cup {Obj(<<P(Ka, Ref(<<x, y>>, <<>>))>>, <<>>) : x \in Targets \ {"@missing"}, y \in Targets \ {"@missing"}}
       ELSE {})
 DeepBodies == {One} \cup {Obj(<<P(Ka, Ref(<<x>>, <<>>))>>, <<>>) : x \in Targets \ {"@missing"}}
@@ -52,7 +53,9 @@ KeyRoots == {Obj(<<SC("@t0", One)>>, <<>>), Obj(<<P(Kr, Ref(<<"@t0">>, <<>>)), S
              Obj(<<SC("@t0", Ref(<<"@t1">>, <<>>))>>, <<>>), Obj(<<SC("@t0", Obj(<<P(Ka, Ref(<<"@t1">>, <<>>))>>, <<>>))>>, <<>>),
              Obj(<<SC("@t0", Arr(<<Ref(<<"@t1">>, <<>>)>>, <<>>))>>, <<>>)}
 DeepRoots == {Obj(<<P(Kr, Ref(<<"@t0">>, <<>>)), P(Kx, Ref(<<"@t1">>, <<>>))>>, <<>>)}
-Roots == IF Level = 3 THEN DeepRoots ELSE IF Level = 4 THEN KeyRoots ELSE {Ref(<<"@t0">>, <<>>), Obj(<<P(Kr, Ref(<<"@t0">>, <<>>)), P(Kx, Ref(<<TName(NTypes - 1)>>, <<OptR>>))>>, <<>>)}
+Roots == IF Level = 3 THEN DeepRoots ELSE IF Level = 4 THEN KeyRoots
+         ELSE {Ref(<<"@t0">>, <<>>), Obj(<<P(Kr, Ref(<<"@t0">>, <<>>)), P(Kx, Ref(<<TName(NTypes - 1)>>, <<OptR>>))>>, <<>>)}
+              \cup (IF Level = 1 /\ NTypes = 2 THEN {Ref(<<"@t0", "@t1">>, <<>>), Arr(<<Ref(<<"@t1", "@t0">>, <<>>)>>, <<>>)} ELSE {})
 
 VARIABLES bodies, root
 Init == bodies \in [0..(NTypes - 1) -> IF Level = 3 THEN DeepBodies ELSE IF Level = 4 THEN KeyBodies ELSE Bodies] /\ root \in Roots
